@@ -468,7 +468,9 @@ def run_diff_case(R, col, c, filters, gitout=None, traces=None, verbose=False):
         elif real != exp:
             if per_path(real) != per_path(exp) or not once(real, False):
                 extra = sorted(set(per_path(real)) - set(per_path(exp)))
-                kind = f"extra({kind_at(A, extra[0])}>{kind_at(B, extra[0])})" if extra else "differs"
+                missing = sorted(set(per_path(exp)) - set(per_path(real)))
+                kind = (f"extra({kind_at(A, extra[0])}>{kind_at(B, extra[0])})" if extra
+                        else f"missing({kind_at(A, missing[0])}>{kind_at(B, missing[0])})" if missing else "differs")
                 col.fail("dulwich/diff_tree.py:walk_trees", f"paths:{kind}", feat, size,
                          txt + f" paths={[pbytes(p).decode('latin-1') for p in P]}",
                          {"paths": [pbytes(p).decode("latin-1") for p in P], "real": real, "expected": exp}, raw)
